@@ -66,6 +66,6 @@ Fixpoint spec_phy (c : option Z) (es : list pev) : list jv :=
   end.
 Definition run_phymem (es : list pev) : jv :=
   let ok := forallb (fun e => let k := mk_kernel (pev_mem e) None None 4096 (0, 0, 1) in
-                              wf_kernel k && has_total_free k && no_junk (pev_mem e)) es in
+                              wf_kernel k && has_total_free k) es in
   JL [ JL (map (fun e => JB (k_meminfo (pev_mem e))) es); JL (run_phy None es);
        (if ok then JL (spec_phy None es) else jnone) ].
